@@ -7,13 +7,28 @@ export GOCACHE=${GOCACHE:-/verif/.cache/go-build}
 cd /verif/harness || exit 2
 mkdir -p /verif/bin /verif/evidence /verif/replays
 BIN=/verif/bin/rxv
-build() { go build -tags verif -o "$BIN" . ; }
+TAGS=verif
+OVERLAY=""
+case "$ID" in
+  C11|C12|C14)
+    # schedule exploration: build /repo through an overlay that routes sync / atomic / time through the shims
+    BIN=/verif/bin/rxs
+    TAGS="verif sched"
+    SCRATCH=$(mktemp -d /var/tmp/rxs-overlay.XXXXXX)
+    trap 'rm -rf "$SCRATCH"' EXIT
+    (cd /verif/mkoverlay && go build -o /verif/bin/mkoverlay . ) || { echo "mkoverlay build failed" >&2; exit 2; }
+    /verif/bin/mkoverlay /repo /verif/shim "$SCRATCH" >/dev/null || { echo "overlay generation failed" >&2; exit 2; }
+    OVERLAY="-overlay $SCRATCH/overlay.json"
+    ;;
+esac
+build() { go build -tags "$TAGS" $OVERLAY -o "$BIN" . ; }
 if ! build 2>/verif/bin/build.err; then
   # fall back to the newer local toolchain if the automatic switch is unavailable
-  if ! GOTOOLCHAIN=local go1.26 build -tags verif -o "$BIN" . 2>>/verif/bin/build.err; then
+  if ! GOTOOLCHAIN=local go1.26 build -tags "$TAGS" $OVERLAY -o "$BIN" . 2>>/verif/bin/build.err; then
     cat /verif/bin/build.err >&2
     echo "harness build failed against /repo working tree" >&2
     exit 2
   fi
 fi
-exec "$BIN" "$ID" -tier "$TIER"
+"$BIN" "$ID" -tier "$TIER"
+exit $?
